@@ -28,6 +28,15 @@ Added after the fourth round:
                      slice::from_raw_parts only behind a length / null test: (nullptr, 0) is a legal empty range in C++ (D16)
   callback-table     no `static` / `thread_local` local of a header function is initialised from its arguments
   alloc-symmetry     relocated-elements-are-marked-moved also covers a growth path without the IntoIter guard
+
+Added after the fifth seeding round (shared-buffer protocol; C++ header via clang AST, Rust via MIR):
+  sharing-a-buffer-increments-its-count   copy constructor / copy assignment take `other.inner` and increment, behind refcount > 0
+  free-only-when-the-count-reaches-zero / elements-destroyed-before-the-buffer-is-freed / destructor-releases-its-share /
+  copy-assignment-releases-the-old-buffer   drop(): free only where the decrement produced zero, destructors first; no leak
+  move-assignment-keeps-one-owner-per-buffer (Vector and String)   handles are exchanged, never duplicated
+  detach: keeps-the-buffer-only-if-unique-and-large-enough (C++ and Rust), copies-every-element-and-adopts-the-copy
+  clear: in-place-edit-only-if-unique;  Rust Drop: buffer-released-only-by-the-last-owner
+  String: handle-comes-from-the-library (every constructor), destructor-releases-the-handle, dropped-handle-is-replaced-at-once
 """
 from common import *
 import q, cxx
